@@ -58,6 +58,14 @@ type Chain struct {
 	BasicACL         acl.Basic
 	EACL             *eacl.Table // nil = no eACL table set for the container
 	LocalInContainer bool
+	// SoloCurrent: in the current epoch the container consists of the local node only; the labels of
+	// PrevEpochExtra were container nodes in the previous epoch (replication senders).
+	SoloCurrent    bool
+	PrevEpochExtra []string
+	// ECCnrID (optional): a second container with the EC 2/1 policy over {local, remote A, remote B}.
+	ECCnrID cid.ID
+	// MaxObjSize overrides the maximum object payload size (0 = 1 MiB).
+	MaxObjSize uint64
 	// ThreeNodes: the container spans {local, remote A, remote B} (used with remotely held objects).
 	ThreeNodes  bool
 	Maintenance bool
@@ -75,6 +83,9 @@ func nodeInfo(label string) netmap.NodeInfo {
 }
 
 func (c *Chain) nodeLabels() []string {
+	if c.SoloCurrent {
+		return []string{LocalNode}
+	}
 	if c.ThreeNodes {
 		return []string{LocalNode, RemoteA, RemoteB}
 	}
@@ -84,12 +95,29 @@ func (c *Chain) nodeLabels() []string {
 	return []string{RemoteA, RemoteB}
 }
 
-func (c *Chain) nodes() []netmap.NodeInfo {
+func (c *Chain) nodes() []netmap.NodeInfo { return nodeInfos(c.nodeLabels()) }
+
+func nodeInfos(labels []string) []netmap.NodeInfo {
 	var r []netmap.NodeInfo
-	for _, l := range c.nodeLabels() {
+	for _, l := range labels {
 		r = append(r, nodeInfo(l))
 	}
 	return r
+}
+
+var ecLabels = []string{LocalNode, RemoteA, RemoteB}
+
+func (c *Chain) isEC(id cid.ID) bool { return !c.ECCnrID.IsZero() && id == c.ECCnrID }
+
+// ECContainer returns the EC 2/1 container of the world.
+func (c *Chain) ECContainer() container.Container {
+	var cnr container.Container
+	cnr.SetOwner(UserOf(Owner))
+	cnr.SetBasicACL(c.BasicACL)
+	var pp netmap.PlacementPolicy
+	pp.SetECRules([]netmap.ECRule{netmap.NewECRule(2, 1)})
+	cnr.SetPlacementPolicy(pp)
+	return cnr
 }
 
 // Container returns the container of the world.
@@ -108,6 +136,9 @@ func (c *Chain) Container() container.Container {
 // containercore.Source
 func (c *Chain) Get(id cid.ID) (container.Container, error) {
 	c.Rec.Add("chain", "Container.Get")
+	if c.isEC(id) {
+		return c.ECContainer(), nil
+	}
 	if id != c.CnrID {
 		return container.Container{}, apistatus.ErrContainerNotFound
 	}
@@ -144,11 +175,17 @@ func (c *Chain) InvokeContainedScript(*transaction.Transaction, *block.Header, *
 }
 func (c *Chain) HasUserInNNS(string, util.Uint160) (bool, error) { return false, nil }
 
-func (c *Chain) forEachKey(id cid.ID, f func([]byte) bool) error {
-	if id != c.CnrID {
+func (c *Chain) forEachKey(id cid.ID, prev bool, f func([]byte) bool) error {
+	labels := c.nodeLabels()
+	if c.isEC(id) {
+		labels = ecLabels
+	} else if id != c.CnrID {
 		return apistatus.ErrContainerNotFound
 	}
-	for _, l := range c.nodeLabels() {
+	if prev {
+		labels = append(append([]string(nil), labels...), c.PrevEpochExtra...)
+	}
+	for _, l := range labels {
 		if !f(Pub(l)) {
 			return nil
 		}
@@ -159,14 +196,17 @@ func (c *Chain) forEachKey(id cid.ID, f func([]byte) bool) error {
 // objectsvc.FSChain
 func (c *Chain) ForEachContainerNodePublicKey(id cid.ID, f func([]byte) bool) error {
 	c.Rec.Add("chain", "ForEachContainerNodePublicKey")
-	return c.forEachKey(id, f)
+	return c.forEachKey(id, false, f)
 }
 func (c *Chain) ForEachContainerNodePublicKeyInLastTwoEpochs(id cid.ID, f func([]byte) bool) error {
 	c.Rec.Add("chain", "ForEachContainerNodePublicKeyInLastTwoEpochs")
-	return c.forEachKey(id, f)
+	return c.forEachKey(id, true, f)
 }
 func (c *Chain) SelectContainerNodes(id cid.ID) ([][]netmap.NodeInfo, []uint, []iec.Rule, error) {
 	c.Rec.Add("chain", "SelectContainerNodes")
+	if c.isEC(id) {
+		return [][]netmap.NodeInfo{nodeInfos(ecLabels)}, nil, []iec.Rule{{DataPartNum: 2, ParityPartNum: 1}}, nil
+	}
 	if id != c.CnrID {
 		return nil, nil, nil, apistatus.ErrContainerNotFound
 	}
@@ -182,7 +222,7 @@ func (c *Chain) LocalNodeUnderMaintenance() bool {
 // aclsvc.FSChain
 func (c *Chain) InContainerInLastTwoEpochs(id cid.ID, pub []byte) (bool, error) {
 	found := false
-	err := c.forEachKey(id, func(k []byte) bool { found = bytes.Equal(k, pub); return !found })
+	err := c.forEachKey(id, true, func(k []byte) bool { found = bytes.Equal(k, pub); return !found })
 	return found, err
 }
 
@@ -202,6 +242,9 @@ func (c *Chain) InnerRingKeys() [][]byte { return [][]byte{Pub(IRNode)} }
 // getsvc.NeoFSNetwork
 func (c *Chain) GetNodesForObject(a oid.Address) ([][]netmap.NodeInfo, []uint, []iec.Rule, error) {
 	c.Rec.Add("chain", "GetNodesForObject")
+	if c.isEC(a.Container()) {
+		return [][]netmap.NodeInfo{nodeInfos(ecLabels)}, nil, []iec.Rule{{DataPartNum: 2, ParityPartNum: 1}}, nil
+	}
 	if a.Container() != c.CnrID {
 		return nil, nil, nil, apistatus.ErrContainerNotFound
 	}
@@ -209,22 +252,38 @@ func (c *Chain) GetNodesForObject(a oid.Address) ([][]netmap.NodeInfo, []uint, [
 }
 func (c *Chain) IsLocalNodePublicKey(k []byte) bool { return bytes.Equal(k, Pub(LocalNode)) }
 
-type cnrNodes struct{ n []netmap.NodeInfo }
+type cnrNodes struct {
+	n  []netmap.NodeInfo
+	ec bool
+}
 
 func (x cnrNodes) Unsorted() [][]netmap.NodeInfo { return [][]netmap.NodeInfo{x.n} }
 func (x cnrNodes) SortForObject(oid.ID) ([][]netmap.NodeInfo, error) {
 	return [][]netmap.NodeInfo{x.n}, nil
 }
-func (x cnrNodes) PrimaryCounts() []uint { return []uint{1} }
-func (x cnrNodes) ECRules() []iec.Rule   { return nil }
+func (x cnrNodes) PrimaryCounts() []uint {
+	if x.ec {
+		return nil
+	}
+	return []uint{1}
+}
+func (x cnrNodes) ECRules() []iec.Rule {
+	if x.ec {
+		return []iec.Rule{{DataPartNum: 2, ParityPartNum: 1}}
+	}
+	return nil
+}
 
 // putsvc.NeoFSNetwork
 func (c *Chain) GetContainerNodes(id cid.ID) (putsvc.ContainerNodes, error) {
 	c.Rec.Add("chain", "GetContainerNodes")
+	if c.isEC(id) {
+		return cnrNodes{nodeInfos(ecLabels), true}, nil
+	}
 	if id != c.CnrID {
 		return nil, apistatus.ErrContainerNotFound
 	}
-	return cnrNodes{c.nodes()}, nil
+	return cnrNodes{c.nodes(), false}, nil
 }
 
 // deletesvc.NetworkInfo
@@ -232,7 +291,12 @@ func (c *Chain) TombstoneLifetime() (uint64, error) { return 5, nil }
 func (c *Chain) LocalNodeID() user.ID               { return UserOf(LocalNode) }
 
 // putsvc.MaxSizeSource
-func (c *Chain) MaxObjectSize() uint64 { return 1 << 20 }
+func (c *Chain) MaxObjectSize() uint64 {
+	if c.MaxObjSize != 0 {
+		return c.MaxObjSize
+	}
+	return 1 << 20
+}
 
 // putsvc.QuotaLimiter / PaymentChecker
 func (c *Chain) AvailableQuotasLeft(cid.ID, user.ID) (uint64, uint64, error) {
